@@ -79,6 +79,18 @@ func c17(c *Ctx) {
 				if !brArg.IsNil() && !reuse {
 					ok, why = false, "newConn is given a reader that is not the hijacked one"
 				}
+				if reuse || wrap {
+					for i := range p.Events {
+						ev := &p.Events[i]
+						if ev.Kind == core.EvCall && ev.Static != nil && !c.P.InPkg(ev.Static) && len(ev.Args) > 0 && isHijackedReader(ev.Args[0]) {
+							switch extName(ev.Static) {
+							case "(*bufio.Reader).Size", "(*bufio.Reader).Buffered":
+							default:
+								ok, why = false, "Upgrade calls "+extName(ev.Static)+" on the hijacked reader at "+c.P.Pos(ev.Instr.Pos())+" before handing it to the connection: the bytes the client sent early are buffered in it and would be discarded or consumed"
+							}
+						}
+					}
+				}
 				switch {
 				case reuse:
 					kinds["reuse"]++
